@@ -1,11 +1,13 @@
 """
 In-memory file system with raw-I/O fault injection.
 
-Seam: ``builtins.open`` / ``io.open`` (so ``Path.open`` is covered too) and
-``os.stat`` (behind ``Path.exists`` / ``os.path.exists``) are replaced, for the
-duration of a ``with fs.installed():`` block, by dispatchers that route paths
-under the virtual root ``/simfs/`` to this module and everything else to the
-real functions.
+Seam: ``builtins.open`` / ``io.open`` (so ``Path.open`` and ``os.fdopen`` are
+covered too), ``os.open`` / ``os.write`` / ``os.close`` on the descriptors it
+hands out, ``os.stat`` / ``os.lstat`` / ``os.access`` (behind ``Path.exists`` /
+``os.path.exists``) and ``os.rename/replace/remove/unlink/fsync/listdir`` are
+replaced, for the duration of a ``with fs.installed():`` block, by dispatchers
+that route paths under the virtual root ``/simfs/`` (and the fake descriptors
+>= 1 000 000) to this module and everything else to the real functions.
 
 The Python-level I/O stack is real: ``io.TextIOWrapper(io.BufferedWriter(
 SimRaw, buffer_size=b), newline=...)`` with ``_CHUNK_SIZE = c``; only the raw
@@ -215,12 +217,82 @@ class SimFS:
         return os.stat_result((stat_mod.S_IFREG | 0o644, 2, 1, 1, 0, 0,
                                len(self.files[path]), 0, 0, 0))
 
+    def os_open(self, path, flags, mode=0o777):
+        """``os.open`` on a sim path: returns a fake descriptor."""
+        path = os.fspath(path)
+        acc = flags & (os.O_WRONLY | os.O_RDWR)
+        if not acc:
+            raise OSError(errno.EINVAL, "simfs: os.open for reading only")
+        fk = self._enter("open", path)
+        if fk == "open_fail":
+            raise self._oserror(errno.EACCES)
+        if fk == "crash":
+            self._crash()
+        exists = path in self.files
+        if exists and (flags & os.O_CREAT) and (flags & os.O_EXCL):
+            raise FileExistsError(errno.EEXIST, os.strerror(errno.EEXIST), path)
+        if not exists and not (flags & os.O_CREAT):
+            raise FileNotFoundError(errno.ENOENT, os.strerror(errno.ENOENT),
+                                    path)
+        if not exists:
+            self.files[path] = bytearray()
+        elif flags & os.O_TRUNC:
+            self.files[path] = bytearray()
+        raw = SimRaw(self, path, self.gen, append=bool(flags & os.O_APPEND))
+        if not (flags & os.O_APPEND):
+            raw._pos = 0
+        self.open_handles.append(raw)
+        return self.fake_fd(raw)
+
+    def os_write(self, fd, data):
+        raw = self._fds.get(fd)
+        if raw is None or raw._sim_closed:
+            raise OSError(errno.EBADF, os.strerror(errno.EBADF))
+        return raw.write(data)
+
+    def os_close(self, fd):
+        raw = self._fds.get(fd)
+        if raw is None or raw._sim_closed:
+            raise OSError(errno.EBADF, os.strerror(errno.EBADF))
+        raw.close()
+
+    def _wrap(self, raw, binary, buffering, encoding, errors, newline):
+        if binary:
+            if buffering == 0:
+                return raw
+            return io.BufferedWriter(raw, buffer_size=self.buffer_size)
+        buf = io.BufferedWriter(raw, buffer_size=self.buffer_size)
+        txt = io.TextIOWrapper(buf, encoding=encoding or "utf-8",
+                               errors=errors, newline=newline)
+        try:
+            txt._CHUNK_SIZE = self.chunk_size
+        except Exception:  # noqa
+            pass
+        return txt
+
     def open(self, file, mode="r", buffering=-1, encoding=None, errors=None,
              newline=None, closefd=True, opener=None):
-        path = os.fspath(file)
-        m = mode.replace("t", "")
+        m = mode.replace("t", "").replace("+", "")
         binary = "b" in m
         m = m.replace("b", "")
+        if opener is not None and not isinstance(file, int):
+            flags = {"w": os.O_WRONLY | os.O_CREAT | os.O_TRUNC,
+                     "a": os.O_WRONLY | os.O_CREAT | os.O_APPEND,
+                     "x": os.O_WRONLY | os.O_CREAT | os.O_EXCL}.get(m)
+            if flags is None:
+                raise ValueError(f"simfs: unsupported mode {mode!r}")
+            if "+" in mode:
+                flags = (flags & ~os.O_WRONLY) | os.O_RDWR
+            file = opener(os.fspath(file), flags | getattr(os, "O_CLOEXEC", 0))
+        if isinstance(file, int):
+            # a descriptor from the patched os.open: wrap its raw handle
+            raw = self._fds.get(file)
+            if raw is None or raw._sim_closed:
+                raise OSError(errno.EBADF, os.strerror(errno.EBADF))
+            if m not in ("w", "a", "x"):
+                raise ValueError(f"simfs: unsupported mode {mode!r}")
+            return self._wrap(raw, binary, buffering, encoding, errors, newline)
+        path = os.fspath(file)
         if m in ("r",):
             if path not in self.files:
                 raise FileNotFoundError(errno.ENOENT,
@@ -247,18 +319,7 @@ class SimFS:
                 self.files.setdefault(path, bytearray())
         raw = SimRaw(self, path, self.gen, append=(m == "a"))
         self.open_handles.append(raw)
-        if binary:
-            if buffering == 0:
-                return raw
-            return io.BufferedWriter(raw, buffer_size=self.buffer_size)
-        buf = io.BufferedWriter(raw, buffer_size=self.buffer_size)
-        txt = io.TextIOWrapper(buf, encoding=encoding or "utf-8",
-                               errors=errors, newline=newline)
-        try:
-            txt._CHUNK_SIZE = self.chunk_size
-        except Exception:  # noqa
-            pass
-        return txt
+        return self._wrap(raw, binary, buffering, encoding, errors, newline)
 
     def raw_write(self, raw, data):
         if raw.gen != self.gen:
@@ -316,8 +377,49 @@ class SimFS:
     def installed(self):
         real_open, real_io_open, real_stat = builtins.open, io.open, os.stat
         real = {n: getattr(os, n) for n in
-                ("rename", "replace", "remove", "unlink", "fsync")}
+                ("rename", "replace", "remove", "unlink", "fsync", "open",
+                 "write", "close", "lstat", "access", "listdir")}
         fs = self
+
+        def is_fd(x):
+            return isinstance(x, int) and not isinstance(x, bool) \
+                and x >= 1_000_000
+
+        def sim_os_open(path, flags, mode=0o777, *a, **kw):
+            if _is_sim(path):
+                return fs.os_open(path, flags, mode)
+            return real["open"](path, flags, mode, *a, **kw)
+
+        def sim_os_write(fd, data):
+            if is_fd(fd):
+                return fs.os_write(fd, data)
+            return real["write"](fd, data)
+
+        def sim_os_close(fd):
+            if is_fd(fd):
+                return fs.os_close(fd)
+            return real["close"](fd)
+
+        def sim_lstat(path, *a, **kw):
+            if _is_sim(path):
+                return fs.stat(path)
+            return real["lstat"](path, *a, **kw)
+
+        def sim_access(path, mode, *a, **kw):
+            if _is_sim(path):
+                try:
+                    fs.stat(path)
+                    return True
+                except OSError:
+                    return False
+            return real["access"](path, mode, *a, **kw)
+
+        def sim_listdir(path="."):
+            if _is_sim(os.fspath(path).rstrip("/") + "/"):
+                pre = os.fspath(path).rstrip("/") + "/"
+                return sorted({p[len(pre):].split("/")[0]
+                               for p in fs.files if p.startswith(pre)})
+            return real["listdir"](path)
 
         def sim_rename(src, dst, *a, **kw):
             if _is_sim(src) or _is_sim(dst):
@@ -340,7 +442,7 @@ class SimFS:
             return real["fsync"](fd)
 
         def sim_open(file, *a, **kw):
-            if _is_sim(file):
+            if is_fd(file) or _is_sim(file):
                 return fs.open(file, *a, **kw)
             return real_open(file, *a, **kw)
 
@@ -355,6 +457,8 @@ class SimFS:
         os.rename, os.replace = sim_rename, sim_replace
         os.remove = os.unlink = sim_remove
         os.fsync = sim_fsync
+        os.open, os.write, os.close = sim_os_open, sim_os_write, sim_os_close
+        os.lstat, os.access, os.listdir = sim_lstat, sim_access, sim_listdir
         try:
             yield self
         finally:
